@@ -61,7 +61,7 @@ theorem placed_of (file : Array UInt8) (nw : NodeWriter) (c H : Nat) (hv : codec
   by_cases hne : cs = []
   · exact Or.inl hne
   · right
-    obtain ⟨e1, e2, e3, e4, e5⟩ := s3 hne
+    obtain ⟨e1, e2, e3, e4, e5, e6, e7⟩ := s3 hne
     subst e1
     simp only [LaidOut] at hlo
     simp only [OffsBelow] at hob
@@ -96,7 +96,8 @@ theorem placed_of (file : Array UInt8) (nw : NodeWriter) (c H : Nat) (hv : codec
             | cons _ _ => simp [WNode.isBranch, WNode.children] at hb
           subst this
           simp [leavesOf]
-    refine ⟨⟨hv, e2, hne, e3, by omega, hcfs, hchild, fun r _ => hres r⟩,
+    refine ⟨⟨hv, e2, hne, e3, by omega, hcfs, hchild, fun r _ => hres r,
+        fun o ho => ⟨e6 _ (List.mem_map.mpr ⟨o, ho, rfl⟩), e7 _ (List.mem_map.mpr ⟨o, ho, rfl⟩)⟩⟩,
       atPos_of_split file pre _ post _ hsplit (by omega), e4, ?_⟩
     rw [placedList_iff]
     intro o ho
